@@ -168,9 +168,12 @@ pub fn has_greedy_dot(h: &Hir) -> bool {
     }
 }
 
+/// what is being repeated: groups do not count, and neither does a repetition nested directly
+/// inside - `(?:.{1,5})*` repeats a dot without an upper bound just as `.*` does
 fn strip_captures(h: &Hir) -> &Hir {
     match h.kind() {
         HirKind::Capture(c) => strip_captures(&c.sub),
+        HirKind::Repetition(r) => strip_captures(&r.sub),
         _ => h,
     }
 }
